@@ -230,6 +230,9 @@ class FatIO(io.RawIOBase):
         :returns: `int`: Truncated size
         """
         with self._lock:
+            if not self.writable():
+                raise IOError('Cannot truncate read-only file!')
+
             cur_pos = self.tell()
             size = size if size is not None else cur_pos
             if size > self.dir_entry.MAX_FILE_SIZE:
